@@ -4,6 +4,26 @@ import json, subprocess
 BASE = json.load(open('/root/.vp/BASELINE.json'))
 ENV = "env -u GOWORK GOFLAGS=-mod=mod GOPROXY=off GOSUMDB=off GOTOOLCHAIN=local"
 CLAIMED = {
+ "C07": dict(
+   technique="static analysis: forward taint of user-supplied axes with dominance checks for two-sided range validation, negative normalisation and duplicate rejection; ownership analysis for clone-before-Reshape; scalar-unwrapping rule on Data() assertions",
+   text="The refusal clauses of the property ('out-of-range / duplicate axes ... yield an error, never a tensor') are decided on the code shape: every use of a user-supplied axis (attribute or axes tensor) as Go index, slice bound or selection must be dominated - locally, at every call site, or on the err==nil edge of a validating callee - by a rejecting two-sided range check on that same value (not on some other value, which is how the Squeeze defect hid), must have passed the `x + rank` normalisation, and axis sets must be sorted and checked for duplicates. The 'same elements in the same order' clause is reduced to clone-before-Reshape (E2: no Reshape on borrowed storage) plus gorgonia's Reshape contract. Data() of a possibly rank-0 tensor must pass the scalar wrapper before a slice assertion.",
+   note="Level 'other': necessary conditions. Not decided: that gorgonia's Reshape keeps row-major order and rejects count mismatches (contract); processShape's -1 inference arithmetic. Shape of a rank-0 tensor yields a zero-size tensor that gorgonia builds but cannot read (behavioural, noted in DESIGN).",
+   ref="DESIGN.md §4 R9 R3 R20; §5 C07"),
+ "C08": dict(
+   technique="static analysis: axes/index taint with validation+normalisation dominance (R9), guarded-Repeat rule (R10), rank-restoration rule for Slice (R19), ownership analysis (R3)",
+   text="Decides the refusal and axis-plumbing clauses: user axes of Slice/Gather/Concat/Transpose and Gather's index data reach Go indexing only under a rejecting two-sided range check (or a validating gorgonia callee whose error is handled) and after negative normalisation; Expand stretches only through Repeat calls dominated by extent==1 (today via the multidirectional broadcast helper); Slice must restore the axes gorgonia's Slice drops (known finding); operands are never modified.",
+   note="Level 'other'. Not decided: the ONNX index formulas themselves (Gather's paired slices, clamping, negative steps), Transpose/Concat data movement (gorgonia). One known finding: Slice drops extent-1 axes.",
+   ref="DESIGN.md §4 R9 R10 R19 R3; §5 C08"),
+ "C09": dict(
+   technique="static analysis: axis taint with per-callee axis contracts (which gorgonia reductions resolve negative axes, which validate which side), control-dependence rule for keepdims, result-type rule",
+   text="Only the axis plumbing is decided (the softmax numerics are out of reach of this family): every requested axis reaches gorgonia or a Go index only after `+ rank` normalisation unless the callee resolves negatives itself (SoftMax/LogSoftMax do, Argmax/Max/Min treat -1 as 'all axes'); the reshape that re-inserts reduced axes is control-dependent on the keepdims attribute field; ArgMax's result is backed by []int64; a reduced rank-0 result passes the scalar wrapper.",
+   note="Level 'other', narrow. Not decided: softmax normalisation/finiteness, first-occurrence ties, NaN handling, 'all axes when none given' (ReduceMax/Min without axes is refused today - behavioural). Out-of-range axes are recorded as notes (the statement is silent on them).",
+   ref="DESIGN.md §4 R9 R20; §5 C09"),
+ "C14": dict(
+   technique="static analysis: guarded-Repeat dominance rule, structural rules on the broadcast helpers (rank rule, first operand returned as is, ones prepended, lower-rank operand padded by the rank difference), ownership analysis for 'sources never modified'",
+   text="Every tensor.Repeat in the helpers is dominated by extent(t, axis)==1 for the tensor being repeated (otherwise incompatible shapes are tiled instead of refused); the unidirectional rank step succeeds only when rank(A) >= rank(B) and the first operand is returned as is; AddExtraDimsToTensor prepends ones; the multidirectional rank step pads the lower-rank operand by the rank difference; no mutation site reachable from the exported helpers writes a borrowed tensor (E2).",
+   note="Level 'other', narrow. Not decided: element placement of gorgonia's Repeat (the bounded-exhaustive element check of the property belongs to a dynamic family).",
+   ref="DESIGN.md §4 R10 R20 R3; §5 C14"),
  "C01": dict(
    technique="static analysis: SSA provenance/dominance rules over the interpreter loop (Run, applyOp, gather, bind), registry freshness, taint rule on output names, global-state effect rule",
    text="The interpreter is the same code for every graph, so the property's program quantifier is discharged on the interpreter's own paths: a fresh operator is resolved per node from that node's op_type (M4) by a registry whose constructors return new values (R2); Init -> gather -> ValidateInputs -> Apply -> bind happen in that order with each stage consuming the previous stage's result and every error returned (M5); gather appends exactly one element per input name, nil for the empty name, an error for an unknown name (M6); results are bound by position under a rejecting length check (M7); caller inputs win over initializers (M3); every declared output is non-nil or Run fails (M8); operators never read output names (R4); no package state is written (R1). Tests run four fixed graphs once each and cannot vary graphs.",
